@@ -103,6 +103,7 @@ type Input struct {
 	E2E    *E2EInput    `json:"e2e,omitempty"`
 	Multi  *MultiInput  `json:"multi,omitempty"`
 	Switch *SwitchInput `json:"switch,omitempty"`
+	Stress *StressInput `json:"stress,omitempty"`
 	Raw    string       `json:"raw,omitempty"`
 }
 
@@ -990,6 +991,14 @@ func Run(c *corr.Ctx) {
 		replay(c, &in)
 		return
 	}
+	if js := os.Getenv("VERIF_SEC_STRESS_CHILD"); js != "" {
+		var in StressInput
+		if err := json.Unmarshal([]byte(js), &in); err != nil {
+			panic(err)
+		}
+		runStress(c, &in, "stress-child")
+		return
+	}
 	only := os.Getenv("VERIF_SEC_ONLY") // development aid: "unit" or "e2e"
 	if only != "e2e" {
 		runCorpus(c)
@@ -1004,6 +1013,7 @@ func Run(c *corr.Ctx) {
 		for i := 0; i < c.N(1200, 12000); i++ {
 			genPipe(c, i)
 		}
+		runStresses(c)
 	}
 	if only != "unit" {
 		runE2E(c)
@@ -1034,6 +1044,8 @@ func replayNamed(c *corr.Ctx, in *Input, name string) {
 		runC2M(c, in, name)
 	case "pipe":
 		runPipe(c, in, name)
+	case "stress":
+		runStressIsolated(c, in.Stress, name)
 	case "admit":
 		var trs []trSpec
 		for _, t := range in.Trs {
